@@ -39,6 +39,15 @@ claim('C17', 'Hypothesis dimension lists with every keep-subset, enumerated Dick
       'the fast reduction is compared with explicit embedding and tracing in both backends.',
       'trusted: numpy trace/einsum in the reference; klist order taken from get_dicke_klist (each klist validated)')
 
+claim('C03', 'exhaustive enumeration of the index space (2277 target/control patterns, n<=6) + Hypothesis circuit programs over the full gate vocabulary; oracle: dense embedding by bit arithmetic, ordered matrix product',
+      'apply_gate / apply_control_n_gate / dm routines / marginals are decided on the complete index space for n<=6 (dm n<=4) with several payload kinds per pattern; '
+      'circuits are generated programs (controlled-parametrised, multi-control, re-used gate objects, extend_circuit, custom gates, placeholders, shifting) compared with a reference unitary.',
+      'trusted: vf/ref.py embed() and gate matrices; kraus gates excluded (unsupported by apply_state by assertion)')
+claim('C11', 'exhaustive enumeration of all ascending subsets n<=6 x 7 state kinds x seeds + Hypothesis circuits with two measurements; oracle: Born marginals by explicit summation, bit-mask projection, reference state tracking',
+      'Every non-empty ascending subset for n<=6 is measured on structured and random states (zero-probability outcomes included) and judged against the explicit projective measurement, '
+      'including repeatability; in-circuit bookkeeping is checked on generated prefix/measure/middle/measure/suffix programs executed twice, with index shifting.',
+      'trusted: vf/ref.py born_marginal / project_outcome; no frequency test (not claimed by the property)')
+
 NOT_YET = 'check not built yet in this session (work in progress; see DESIGN.md section 4 for the planned generator and oracle)'
 
 ALL = [f'C{i:02d}' for i in range(1, 21)]
